@@ -242,8 +242,7 @@ def _n3(ctx, core):
     ctx.floor(R, 6)
 
 
-def _n4(ctx, core):
-    R = "C11-N4"
+def _n4(ctx, core, R="C11-N4"):
     ctx.doc(R, "block shift amounts and block length agree (2**shift == block length) at every site")
     shifts, lens = [], []
     for x in core.walk():
